@@ -10,7 +10,7 @@ inductive Eff
   | val (v : Tok) | on | off
   deriving DecidableEq, Repr
 
-def Eff.run (a : Arg) : Eff → Arg
+def Arg.eff (a : Arg) : Eff → Arg
   | .val v => Arg.given v a
   | .on => a.seen
   | .off => a.unseen
@@ -43,7 +43,7 @@ theorem updArg_get (c : Ctx) (i : Nat) (f : Arg → Arg) (j : Nat) :
     exact updArg_args_ne c i f j (Ne.symm h)
 
 theorem effIf_run (i j : Nat) (e : Eff) (o : Option Arg) :
-    (if i = j then o.map (fun a => a.run e) else o) = o.map (fun a => (effIf i j e).foldl Eff.run a) := by
+    (if i = j then o.map (fun a => a.eff e) else o) = o.map (fun a => (effIf i j e).foldl Arg.eff a) := by
   unfold effIf
   by_cases h : i = j
   · simp [h]
@@ -51,25 +51,25 @@ theorem effIf_run (i j : Nat) (e : Eff) (o : Option Arg) :
 
 theorem applyToggles_get (ps : List (Char × Nat)) (c : Ctx) (j : Nat) :
     (applyToggles c ps).args[j]? =
-      (c.args[j]?).map (fun a => (ps.flatMap (fun p => effIf p.2 j .on)).foldl Eff.run a) := by
+      (c.args[j]?).map (fun a => (ps.flatMap (fun p => effIf p.2 j .on)).foldl Arg.eff a) := by
   induction ps generalizing c with
   | nil => simp [applyToggles]
   | cons p r ih =>
     have e : applyToggles c (p :: r) = applyToggles (c.updArg p.2 Arg.seen) r := rfl
     rw [e, ih, updArg_get]
     have := effIf_run p.2 j .on (c.args[j]?)
-    simp only [Eff.run] at this
+    simp only [Arg.eff] at this
     rw [this]
     cases c.args[j]? <;> simp [List.foldl_append]
 
 theorem apply_get (it : Item) (c : Ctx) (j : Nat) :
-    (it.apply c).args[j]? = (c.args[j]?).map (fun a => (it.effsAt j).foldl Eff.run a) := by
+    (it.apply c).args[j]? = (c.args[j]?).map (fun a => (it.effsAt j).foldl Arg.eff a) := by
   cases it with
   | block x i rest =>
     simp only [Item.apply, Item.effsAt]
     rw [applyToggles_get, updArg_get]
     have := effIf_run i j .on (c.args[j]?)
-    simp only [Eff.run] at this
+    simp only [Arg.eff] at this
     rw [this]
     cases c.args[j]? <;> simp [List.foldl_append]
   | spaced fl v i => simp only [Item.apply, Item.effsAt]; rw [updArg_get]; exact effIf_run i j (.val v) _
@@ -82,7 +82,7 @@ theorem apply_get (it : Item) (c : Ctx) (j : Nat) :
 
 theorem foldl_apply_get (items : List Item) (c : Ctx) (j : Nat) :
     (items.foldl Item.apply c).args[j]? =
-      (c.args[j]?).map (fun a => (items.flatMap (Item.effsAt j)).foldl Eff.run a) := by
+      (c.args[j]?).map (fun a => (items.flatMap (Item.effsAt j)).foldl Arg.eff a) := by
   induction items generalizing c with
   | nil => simp
   | cons it r ih =>
@@ -128,47 +128,99 @@ theorem castTok_ne_none {k : Kind} {v : Tok} {pv : PVal} (h : castTok k v = some
   · obtain ⟨n, _, rfl⟩ := h; simp
 
 theorem valRel_step {a : ArgSpec} {ac : Arg} {cur : PVal} (r : ValRel a ac cur) (e : Eff) :
-    ValRel a (ac.run e) (intendedStep a cur e) := by
+    ValRel a (ac.eff e) (intendedStep a cur e) := by
   obtain ⟨hs, hv, hval⟩ := r
   cases e with
   | val v =>
-    simp only [Eff.run, Arg.given, Arg.give, intendedStep, hs]
     by_cases hl : a.kind = .list
     · have hvc := hval (Or.inl hl)
-      simp only [hl, if_true]
-      rw [hvc]
-      cases cur with
-      | l xs => exact ⟨hs, by simp [Arg.value], fun _ => rfl⟩
-      | none => exact ⟨hs, hv, hval⟩
-      | s _ => exact ⟨hs, hv, hval⟩
-      | i _ => exact ⟨hs, hv, hval⟩
-      | b _ => exact ⟨hs, hv, hval⟩
-    · simp only [hl, if_false]
+      have hl' : ac.spec.kind = .list := by rw [hs]; exact hl
+      cases hcur : cur with
+      | l xs =>
+        have hvx : ac.val = .l xs := by rw [hvc, hcur]
+        have e1 : ac.eff (.val v) = { ac with raw := some (.s v), val := .l (xs ++ [v]) } := by
+          simp [Arg.eff, Arg.given, Arg.give, hl', hvx]
+        have e2 : intendedStep a (.l xs) (.val v) = .l (xs ++ [v]) := by simp [intendedStep, hl]
+        rw [e1, e2]
+        exact ⟨hs, by simp [Arg.value], fun _ => rfl⟩
+      | none =>
+        have hvx : ac.val = .none := by rw [hvc, hcur]
+        have e1 : ac.eff (.val v) = ac := by simp [Arg.eff, Arg.given, Arg.give, hl', hvx]
+        have e2 : intendedStep a .none (.val v) = .none := by simp [intendedStep, hl]
+        rw [e1, e2, ← hcur]; exact ⟨hs, hv, hval⟩
+      | s x =>
+        have hvx : ac.val = .s x := by rw [hvc, hcur]
+        have e1 : ac.eff (.val v) = ac := by simp [Arg.eff, Arg.given, Arg.give, hl', hvx]
+        have e2 : intendedStep a (.s x) (.val v) = .s x := by simp [intendedStep, hl]
+        rw [e1, e2, ← hcur]; exact ⟨hs, hv, hval⟩
+      | i x =>
+        have hvx : ac.val = .i x := by rw [hvc, hcur]
+        have e1 : ac.eff (.val v) = ac := by simp [Arg.eff, Arg.given, Arg.give, hl', hvx]
+        have e2 : intendedStep a (.i x) (.val v) = .i x := by simp [intendedStep, hl]
+        rw [e1, e2, ← hcur]; exact ⟨hs, hv, hval⟩
+      | b x =>
+        have hvx : ac.val = .b x := by rw [hvc, hcur]
+        have e1 : ac.eff (.val v) = ac := by simp [Arg.eff, Arg.given, Arg.give, hl', hvx]
+        have e2 : intendedStep a (.b x) (.val v) = .b x := by simp [intendedStep, hl]
+        rw [e1, e2, ← hcur]; exact ⟨hs, hv, hval⟩
+    · have hl' : ¬ ac.spec.kind = .list := by rw [hs]; exact hl
       cases hc : castTok a.kind v with
-      | none => exact ⟨hs, hv, hval⟩
+      | none =>
+        have e1 : ac.eff (.val v) = ac := by simp [Arg.eff, Arg.given, Arg.give, hl', hl, hs, hc]
+        have e2 : intendedStep a cur (.val v) = cur := by simp [intendedStep, hl, hc]
+        rw [e1, e2]; exact ⟨hs, hv, hval⟩
       | some pv =>
         have hne := castTok_ne_none hc
+        have e1 : ac.eff (.val v) = { ac with raw := some (.s v), val := pv } := by
+          simp [Arg.eff, Arg.given, Arg.give, hl', hl, hs, hc]
+        have e2 : intendedStep a cur (.val v) = pv := by simp [intendedStep, hl, hc]
+        rw [e1, e2]
         exact ⟨hs, by simp [Arg.value, hne], fun _ => rfl⟩
   | on =>
-    simp only [Eff.run, Arg.seen, intendedStep, hs]
     by_cases hi : a.incrementable = true
     · have hvc := hval (Or.inr hi)
-      simp only [hi, if_true]
-      rw [hvc]
-      cases cur with
-      | i n => exact ⟨hs, by simp [Arg.value], fun _ => rfl⟩
-      | none => exact ⟨hs, hv, hval⟩
-      | s _ => exact ⟨hs, hv, hval⟩
-      | l _ => exact ⟨hs, hv, hval⟩
-      | b _ => exact ⟨hs, hv, hval⟩
-    · simp only [hi]
+      have hi' : ac.spec.incrementable = true := by rw [hs]; exact hi
+      cases hcur : cur with
+      | i n =>
+        have hvx : ac.val = .i n := by rw [hvc, hcur]
+        have e1 : ac.eff .on = { ac with raw := some (.b true), val := .i (n + 1) } := by
+          simp [Arg.eff, Arg.seen, hi', hvx]
+        have e2 : intendedStep a (.i n) .on = .i (n + 1) := by simp [intendedStep, hi]
+        rw [e1, e2]
+        exact ⟨hs, by simp [Arg.value], fun _ => rfl⟩
+      | none =>
+        have hvx : ac.val = .none := by rw [hvc, hcur]
+        have e1 : ac.eff .on = ac := by simp [Arg.eff, Arg.seen, hi', hvx]
+        have e2 : intendedStep a .none .on = .none := by simp [intendedStep, hi]
+        rw [e1, e2, ← hcur]; exact ⟨hs, hv, hval⟩
+      | s x =>
+        have hvx : ac.val = .s x := by rw [hvc, hcur]
+        have e1 : ac.eff .on = ac := by simp [Arg.eff, Arg.seen, hi', hvx]
+        have e2 : intendedStep a (.s x) .on = .s x := by simp [intendedStep, hi]
+        rw [e1, e2, ← hcur]; exact ⟨hs, hv, hval⟩
+      | l x =>
+        have hvx : ac.val = .l x := by rw [hvc, hcur]
+        have e1 : ac.eff .on = ac := by simp [Arg.eff, Arg.seen, hi', hvx]
+        have e2 : intendedStep a (.l x) .on = .l x := by simp [intendedStep, hi]
+        rw [e1, e2, ← hcur]; exact ⟨hs, hv, hval⟩
+      | b x =>
+        have hvx : ac.val = .b x := by rw [hvc, hcur]
+        have e1 : ac.eff .on = ac := by simp [Arg.eff, Arg.seen, hi', hvx]
+        have e2 : intendedStep a (.b x) .on = .b x := by simp [intendedStep, hi]
+        rw [e1, e2, ← hcur]; exact ⟨hs, hv, hval⟩
+    · have hi' : ¬ ac.spec.incrementable = true := by rw [hs]; exact hi
+      have e1 : ac.eff .on = { ac with raw := some (.b true), val := .b true } := by
+        simp [Arg.eff, Arg.seen, hi']
+      have e2 : intendedStep a cur .on = .b true := by simp [intendedStep, hi]
+      rw [e1, e2]
       exact ⟨hs, by simp [Arg.value], fun _ => rfl⟩
   | off =>
-    simp only [Eff.run, Arg.unseen, intendedStep]
-    exact ⟨hs, by simp [Arg.value], fun _ => rfl⟩
+    have e2 : intendedStep a cur .off = .b false := rfl
+    rw [e2]
+    exact ⟨hs, by simp [Arg.eff, Arg.unseen, Arg.value], fun _ => rfl⟩
 
 theorem valRel_fold {a : ArgSpec} : ∀ (effs : List Eff) {ac : Arg} {cur : PVal}, ValRel a ac cur →
-    ValRel a (effs.foldl Eff.run ac) (effs.foldl (intendedStep a) cur)
+    ValRel a (effs.foldl Arg.eff ac) (effs.foldl (intendedStep a) cur)
   | [], _, _, r => r
   | e :: es, _, _, r => valRel_fold es (valRel_step r e)
 
@@ -414,5 +466,60 @@ theorem intended_counter (a : ArgSpec) (hi : a.incrementable = true) (n : Int) (
   have : (Arg.init a).value = .i n := by simp [Arg.init, Arg.value, hi, hd]
   unfold intendedValue
   rw [this, intended_counter_fold a hi]
+
+/-! ## from the chain to its calls -/
+
+theorem elabChain_get {decls : List TaskDecl} : ∀ {ch : List SCall} {calls : List Call}, elabChain decls ch = some calls →
+    calls.length = ch.length ∧
+    ∀ (n : Nat) (k : SCall), ch[n]? = some k → ∃ c, calls[n]? = some c ∧ elabCall decls k = some c
+  | [], calls, h => by
+    simp [elabChain] at h; subst h
+    exact ⟨rfl, fun n k hk => by simp at hk⟩
+  | k0 :: r, calls, h => by
+    simp only [elabChain] at h
+    cases hc : elabCall decls k0 with
+    | none => simp [hc] at h
+    | some c0 =>
+      cases hr : elabChain decls r with
+      | none => simp [hc, hr] at h
+      | some cs =>
+        simp only [hc, hr, Option.some.injEq] at h
+        subst h
+        obtain ⟨hl, hget⟩ := elabChain_get hr
+        refine ⟨by simp [hl], ?_⟩
+        intro n k hk
+        cases n with
+        | zero =>
+          simp only [List.getElem?_cons_zero, Option.some.injEq] at hk
+          subst hk
+          exact ⟨c0, rfl, hc⟩
+        | succ m =>
+          simp only [List.getElem?_cons_succ] at hk ⊢
+          exact hget m k hk
+
+theorem elabCall_spec {decls : List TaskDecl} {k : SCall} {c : Call} {d : TaskDecl} (h : elabCall decls k = some c)
+    (hf : findDecl decls k.tname = some d) :
+    ∃ c0 its, d.ctx? = .ok c0 ∧ elabItems d k.items = some its ∧ c = { tname := k.tname, ctx := c0, items := its } := by
+  unfold elabCall at h
+  rw [hf] at h
+  simp only at h
+  cases hc : d.ctx? with
+  | error e => simp [hc] at h
+  | ok c0 =>
+    cases hi : elabItems d k.items with
+    | none => simp [hc, hi] at h
+    | some its =>
+      simp only [hc, hi, Option.some.injEq] at h
+      exact ⟨c0, its, rfl, rfl, h.symm⟩
+
+/-- an unmentioned parameter with a declared default shows that default (`[]` for a list-type parameter): C09 -/
+theorem unmentioned_carries_default {d : TaskDecl} {a : ArgSpec} (ha : a ∈ d.args) :
+    ∃ p ∈ d.params, a.pyName = p.name ∧ (p.default ≠ .empty → CarriesDefault p a (intendedValue a [])) := by
+  rcases mem_argList ha with ⟨p, hp, t, rfl⟩
+  refine ⟨p, hp, argOpts_pyName _ _ _ _, ?_⟩
+  intro hne
+  show CarriesDefault p _ (Arg.init _).value
+  simp only [CarriesDefault, init_value, argOpts_kind, argOpts_default, argOpts_incrementable]
+  exact carries_table _ _ _ _ hne
 
 end Inv
